@@ -84,6 +84,9 @@ type lox struct {
 
 	_qla    int
 	_qlasym any
+
+	// _stuck is true from a successful error recovery until a token is shifted.
+	_stuck bool
 }
 
 func (p *jsoncParser) parse(lex _Lexer) bool {
@@ -107,6 +110,9 @@ func (p *jsoncParser) parse(lex _Lexer) bool {
 		if action == accept {
 			break
 		} else if action >= 0 { // shift
+			if p._la != ERROR {
+				p._stuck = false
+			}
 			p._stack.Push(_item{
 				State: action,
 				Sym:   p._lasym,
@@ -163,6 +169,18 @@ func (p *jsoncParser) _recover() bool {
 	errSym, ok := p._lasym.(Error)
 	if !ok {
 		errSym = p._makeError()
+	}
+
+	if p._stuck {
+		// The last recovery resumed at this very token and nothing has been
+		// shifted since: resuming here once more would never end. Give the
+		// token up.
+		if p._la == EOF {
+			return false
+		}
+		if p._la != ERROR {
+			p._readToken()
+		}
 	}
 
 	for p._la == ERROR {
@@ -227,6 +245,7 @@ func (p *jsoncParser) _recover() bool {
 				p._qlasym = p._lasym
 				p._la = ERROR
 				p._lasym = deliver
+				p._stuck = true
 				return true
 			}
 
